@@ -29,6 +29,9 @@ func init() {
 }
 
 func nsFn(m vals.Map) (*Ns, error) {
+	if m == nil {
+		return nil, errs.BadValue{What: `argument of "ns"`, Valid: "map", Actual: "$nil"}
+	}
 	nb := BuildNs()
 	for it := m.Iterator(); it.HasElem(); it.Next() {
 		k, v := it.Elem()
@@ -75,11 +78,14 @@ func makeMap(input Inputs) (vals.Map, error) {
 	return m, errMakeMap
 }
 
-func conj(li vals.List, more ...any) vals.List {
+func conj(li vals.List, more ...any) (vals.List, error) {
+	if li == nil {
+		return nil, errs.BadValue{What: `first argument of "conj"`, Valid: "list", Actual: "$nil"}
+	}
 	for _, val := range more {
 		li = li.Conj(val)
 	}
-	return li
+	return li, nil
 }
 
 func assoc(a, k, v any) (any, error) {
